@@ -49,7 +49,7 @@ class Contract:
     def __init__(self, qualname, params, returns=None, requires=(), ensures=(), raises=(),
                  modifies=(), trusted=False, inline=False, allocates=False, ghost=None,
                  hints=(), props=(), ensures_exc=None, note="", pure=False, assume_pre=(),
-                 entry_facts=(), checks_only=False, ghost_modifies=(), ghost_ensures=()):
+                 entry_facts=(), checks_only=False, ghost_modifies=(), ghost_ensures=(), ghost_out=None):
         self.qualname = qualname
         self.params = OrderedDict((k, parse_kind(v)) for k, v in params.items())
         self.returns = parse_kind(returns) if returns is not None else None
@@ -73,6 +73,8 @@ class Contract:
         # applied at call sites, not checked against the body
         self.ghost_modifies = list(ghost_modifies)
         self.ghost_ensures = _clauses(ghost_ensures, "ghost")
+        # existential witnesses named after locals of the function at its return: name -> (local, kind)
+        self.ghost_out = OrderedDict((k, (v[0], parse_kind(v[1]))) for k, v in (ghost_out or {}).items())
 
 
 class LoopSpec:
@@ -108,7 +110,8 @@ class Registry:
         self.globals: dict[str, object] = {}
         self.regions: dict[tuple, dict] = {}
         self.inline_ctor: set[str] = set()
-        self.flags: dict[str, bool] = {}     # switches for known-finding exclusions (see driver)
+        self.flags: dict[str, bool] = {}
+        self.obj_invariants: dict[str, str] = {}     # switches for known-finding exclusions (see driver)
         self.kind_hints: dict = {}
 
     # the functions below are what spec files use -------------------------------------
@@ -161,6 +164,11 @@ class Registry:
         and raises nothing.  Checked syntactically (only Name targets, all declared); listed as assumption."""
         self.regions[(qualname, stmt_type, ordinal)] = dict(
             assigns=OrderedDict((k, parse_kind(v)) for k, v in assigns.items()), note=note)
+
+    def object_invariant(self, cls, expr):
+        """A class invariant (established by __init__, preserved by every method that writes the fields - both proved -
+        and no other writers): assumed for every object of the class read from the heap or received as an argument."""
+        self.obj_invariants[cls] = expr
 
     def global_value(self, name, kind):
         """A module-level object of the package modelled as an (arbitrary, pre-existing) value of `kind`."""
